@@ -192,7 +192,52 @@ def hostile_upstream_socks(rng):
     return rng.randbytes(rng.choice([1, 30]))
 
 
+def gen_fdx(rng, tier, i):
+    """descriptor exhaustion on the kernel lane (real descriptors: socket pairs, dup(2) and pipe(2) of the splice path):
+    a client opens more tunnels than the process may hold descriptors for; the limit is lifted later. Nothing may panic,
+    and once descriptors are available again every listener serves."""
+    sc = Scenario(rng)
+    sc.net["backend"] = "kernel"
+    sc.net["spawn_yield"] = 0
+    sc.cfg["timeouts"] = {"idle": 4, "udp": 4}
+    sc.cfg["ioParams"] = {"bufferSize": rng.choice([4096, 65536]), "useSplice": rng.random() < 0.8}
+    lis = {"http": sc.add_http_listener("l-http"), "socks": sc.add_socks_listener("l-socks")}
+    oip, oport = sc.origin_ip(), sc.port()
+    lis["rev"] = sc.add_reverse_listener("l-rev", "%s:%d" % (oip, oport))
+    sc.add_direct("d")
+    sc.rule("d")
+    sc.add_origin("%s:%d" % (oip, oport), default_ops=[op("serve_tagged", timeout_ms=8000)], oid="origin")
+    limit = rng.choice([30, 40, 60, 90, 140])
+    t_low, t_high = 300, 6000
+    sc.faults.append({"at_ms": t_low, "kind": "fd_limit", "n": limit})
+    sc.faults.append({"at_ms": t_high, "kind": "fd_limit", "n": 0})
+    hostile = []
+    for k in range(rng.choice([8, 16, 30])):
+        lk = rng.choice(["http", "socks", "rev"])
+        li = lis[lk]
+        seed = rng.getrandbits(60) | 1
+        hs, proto = sc.client_handshake(li, oip, oport, variant="5p" if lk == "socks" else None)
+        ops = [dict(o, on_fail="continue", timeout_ms=5000) for o in hs] + [send(tag_header(seed, 50, 50, 1), on_fail="continue"), op("send", fill=[seed, 50], on_fail="continue"),
+                                                                            op("sleep", ms=rng.choice([500, 3000, 7000])), op("close")]
+        sc.add_client("x%d" % k, li, ops, start_ms=t_low + 50 + 20 * k)
+        hostile.append({"cid": "x%d" % k, "kind": "fd-exhaustion"})
+    canaries = []
+    for n, lk in enumerate(["http", "socks", "rev"]):
+        li = lis[lk]
+        seed = rng.getrandbits(60) | 1
+        hs, proto = sc.client_handshake(li, oip, oport, variant="5p" if lk == "socks" else None)
+        ops = [dict(o, timeout_ms=9000) for o in hs] + [op("par", w=[send(tag_header(seed, 100, 100)), op("send", fill=[seed, 100]), op("shutdown")],
+                                                           r=[op("expect", fill=[seed ^ TAG_XOR, 100], timeout_ms=9000, label="s2c"), op("recv_eof", timeout_ms=9000, label="eof")])]
+        sc.add_client("end-" + lk, li, ops, start_ms=t_high + 8000 + 10 * n)
+        canaries.append({"cid": "end-" + lk, "lk": lk, "proto": proto, "at": t_high + 8000 + 10 * n})
+    sc.meta = {"cls": "fdx/%d" % limit, "cfgkey": "fdx/%d/%d/%s" % (limit, len(hostile), sc.cfg["ioParams"]["useSplice"]), "hostile": hostile, "canaries": canaries, "keep_ops": True}
+    sc.max_ms = t_high + 40000
+    return sc.plan(want_events=False)
+
+
 def gen(rng, tier, i):
+    if rng.random() < 0.08:
+        return gen_fdx(rng, tier, i)
     sc = Scenario(rng)
     cname, chaos = G.pick_chaos(rng, weights=(("none", 2), ("mild", 3), ("heavy", 2)))
     if chaos:
@@ -231,6 +276,13 @@ def gen(rng, tier, i):
         hq["server"]["streams"] = [[op("recv_n", n=1, timeout_ms=3000, on_fail="continue"), send(hostile_upstream_http(rng), on_fail="continue"),
                                     op("recv_eof", timeout_ms=5000, on_fail="continue")] for _ in range(4)]
         hq["server"]["echo_datagrams"] = False
+    if use_quic:
+        # a well-behaved QUIC upstream that advertises a tiny max_datagram_frame_size: UDP frames towards it cannot be sent as datagrams
+        tq = sc.add_quic_connector("tiny-quic")
+        tq["server"]["default_ops"] = [op("recv_http_head", label="upreq", timeout_ms=5000, on_fail="continue"), send(b"HTTP/1.1 200 OK\r\nSession-Id: 5\r\n\r\n", on_fail="continue"),
+                                       op("recv_eof", timeout_ms=6000, on_fail="continue")]
+        tq["server"]["dgram_buf"] = rng.choice([1, 9, 10, 13, 14, 20])
+        sc.rule("tiny-quic", 'request.target.port == 7004')
     sc.rule("hu-http", 'request.target.port == 7001')
     sc.rule("hu-socks", 'request.target.port == 7002')
     if use_quic:
@@ -240,7 +292,7 @@ def gen(rng, tier, i):
     nh = rng.randint(1, 6)
     t = 50
     for k in range(nh):
-        kind = rng.choice(["http", "http", "https-raw", "socks", "socks", "socksauth", "rev", "up-http", "up-socks", "sudp", "revudp"] + (["quic-dgram", "quic-stream", "up-quic"] if use_quic else []))
+        kind = rng.choice(["http", "http", "https-raw", "socks", "socks", "socksauth", "rev", "up-http", "up-socks", "sudp", "revudp"] + (["quic-dgram", "quic-stream", "up-quic", "tiny-dgram"] if use_quic else []) + ["accept-error"])
         cid = "x%d" % k
         end = rng.choice([[op("close")], [op("shutdown"), op("recv_eof", timeout_ms=6000, on_fail="continue")], [op("sleep", ms=rng.choice([100, 9000]))], [op("reset")]])
         if kind == "http":
@@ -260,6 +312,15 @@ def gen(rng, tier, i):
             udp = rng.random() < 0.3 and li["kind"] == "http"
             hs, proto = sc.client_handshake(li, "10.9.9.9", port, variant="5p" if li["kind"] == "socks" else None, udp=udp)
             sc.add_client(cid, li, [dict(o, on_fail="continue", timeout_ms=6000) for o in hs] + [op("recv_eof", timeout_ms=7000, on_fail="continue")], start_ms=t)
+        elif kind == "tiny-dgram":
+            hs, proto = sc.client_handshake(lis["http"], "10.9.9.9", 7004, udp=True)
+            frames = b"".join(rc.rpfm_frame(0, "10.9.9.9", 7004, rng.randbytes(rng.choice([0, 1, 40, 1000]))) for _ in range(rng.randint(1, 3)))
+            sc.add_client(cid, lis["http"], [dict(o, on_fail="continue", timeout_ms=6000) for o in hs] + [send(frames, on_fail="continue"), op("recv_eof", timeout_ms=7000, on_fail="continue")], start_ms=t)
+        elif kind == "accept-error":
+            # accept(2) on a listener fails once: a client that reset before it was accepted (ECONNABORTED), descriptor or
+            # buffer exhaustion (EMFILE, ENFILE, ENOBUFS, ENOMEM), a signal (EINTR): the listener must keep serving
+            lk = rng.choice(["http", "https", "socks", "socksauth", "rev"])
+            sc.faults.append({"at_ms": t, "kind": "accept_error", "port": lis[lk]["port"], "errno": rng.choice([103, 103, 24, 23, 105, 12, 4, 71])})
         elif kind == "sudp":
             ops = [send(rc.socks5_greeting([0]) + rc.socks5_request(3, "0.0.0.0", 0)), op("recv_n", n=2, label="method", on_fail="continue", timeout_ms=4000),
                    op("recv_socks5_reply", label="reply", on_fail="continue", timeout_ms=4000), op("set", flag="assoc-" + cid), op("recv_eof", timeout_ms=7000, on_fail="continue")]
@@ -348,7 +409,7 @@ def oracle(plan, out):
         if not ok or e is None or e["res"] != "ok" or x is None or x["res"] != "eof@0":
             rep = R.op_by_label(cid, "reply")
             v("canary-not-served", c["lk"], "canary %s on %s (started %.3fs) was not served while/after hostile peers %s were active: connect=%s reply=%s s2c=%s" % (
-                cid, c["lk"], c["at"] / 1e3, (R.connect(cid.split("/")[0]) or {}).get("connect"), rep and rep["res"], e and e["res"]))
+                cid, c["lk"], c["at"] / 1e3, kinds, (R.connect(cid.split("/")[0]) or {}).get("connect"), rep and rep["res"], e and e["res"]))
     return V
 
 
